@@ -142,6 +142,13 @@ func (s *Server[StateT]) handleCommand(opCode proto.OpCode, ctx *Context[StateT]
 	}
 }
 
+// cleanPath converts path received from the client to the absolute (relative to the served root) lexically
+// clean form. Result never contains ".." elements, so it can't point outside the root regardless of how
+// underlying filesystem checks that ("/../x" becomes "/x").
+func cleanPath(path string) string {
+	return filepath.Clean(string(filepath.Separator) + path)
+}
+
 func (s *Server[StateT]) handleOpenDir(ctx *Context[StateT]) error {
 	// here we should check that we can read requested dir and set state if it's true
 	dirPath, err := ctx.rd.ReadOpenDir()
@@ -149,7 +156,7 @@ func (s *Server[StateT]) handleOpenDir(ctx *Context[StateT]) error {
 		return fmt.Errorf("read dir failed: %w", err)
 	}
 
-	return ctx.wr.SendOpenDirResult(s.Handler.HandleOpenDir(ctx, dirPath))
+	return ctx.wr.SendOpenDirResult(s.Handler.HandleOpenDir(ctx, cleanPath(dirPath)))
 }
 
 func (s *Server[StateT]) handleReadDirEntry(ctx *Context[StateT]) error {
@@ -170,7 +177,7 @@ func (s *Server[StateT]) handleStatFile(ctx *Context[StateT]) error {
 		return fmt.Errorf("read stat path failed: %w", err)
 	}
 
-	fi, err := s.Handler.HandleStatFile(ctx, filePath)
+	fi, err := s.Handler.HandleStatFile(ctx, cleanPath(filePath))
 	if err != nil {
 		return ctx.wr.SendStatFileError()
 	}
@@ -187,7 +194,7 @@ func (s *Server[StateT]) handleOpenFile(ctx *Context[StateT]) error {
 		return fmt.Errorf("read file to open path failed: %w", err)
 	}
 
-	filePath = filepath.Clean(filePath)
+	filePath = cleanPath(filePath)
 
 	if _, name := filepath.Split(filePath); name == "CLOSEFILE" {
 		s.Handler.HandleCloseFile(ctx)
@@ -264,7 +271,7 @@ func (s *Server[StateT]) handleCreateFile(ctx *Context[StateT]) error {
 		return fmt.Errorf("read file to create path failed: %w", err)
 	}
 
-	if err = s.Handler.HandleCreateFile(ctx, path); err != nil {
+	if err = s.Handler.HandleCreateFile(ctx, cleanPath(path)); err != nil {
 		return ctx.wr.SendCreateFileError()
 	}
 
@@ -298,7 +305,7 @@ func (s *Server[StateT]) handleDeleteFile(ctx *Context[StateT]) error {
 		return fmt.Errorf("read file to delete path failed: %w", err)
 	}
 
-	if err = s.Handler.HandleDeleteFile(ctx, path); err != nil {
+	if err = s.Handler.HandleDeleteFile(ctx, cleanPath(path)); err != nil {
 		return ctx.wr.SendDeleteFileError()
 	}
 
@@ -311,7 +318,7 @@ func (s *Server[StateT]) handleMkdir(ctx *Context[StateT]) error {
 		return fmt.Errorf("read directory to create path failed: %w", err)
 	}
 
-	if err = s.Handler.HandleMkdir(ctx, path); err != nil {
+	if err = s.Handler.HandleMkdir(ctx, cleanPath(path)); err != nil {
 		return ctx.wr.SendMkdirError()
 	}
 
@@ -324,7 +331,7 @@ func (s *Server[StateT]) handleRmdir(ctx *Context[StateT]) error {
 		return fmt.Errorf("read directory to remove path failed: %w", err)
 	}
 
-	if err = s.Handler.HandleRmdir(ctx, path); err != nil {
+	if err = s.Handler.HandleRmdir(ctx, cleanPath(path)); err != nil {
 		return ctx.wr.SendRmdirError()
 	}
 
@@ -337,7 +344,7 @@ func (s *Server[StateT]) handleGetDirSize(ctx *Context[StateT]) error {
 		return fmt.Errorf("read directory to calculate size path failed: %w", err)
 	}
 
-	size, err := s.Handler.HandleGetDirSize(ctx, path)
+	size, err := s.Handler.HandleGetDirSize(ctx, cleanPath(path))
 	if err != nil {
 		return ctx.wr.SendGetDirectorySizeError()
 	}
